@@ -15,6 +15,11 @@ from . import engine as S
 
 RISKY = re.compile(r'\bas\s+[iu](?:8|16|32|64|128|size)\b|try_from|try_into|unwrap_or|\.min\(|\.max\(|\.clamp\(|saturating_|wrapping_|checked_|overflowing_|%|>>|<<|\babs\b|\.pow\(')
 INT_BITS = {'u8': 8, 'u16': 16, 'u32': 32, 'u64': 64, 'usize': 64, 'i8': 8, 'i16': 16, 'i32': 32, 'i64': 64, 'isize': 64}
+# library accessors applied to stored TEXT / BLOB values (contracts): lossless = the decoder's constructor is its inverse
+LOSSLESS_ACCESSORS = {'as_str', 'as_bytes', 'to_bytes', 'as_slice', 'to_vec', 'to_string', 'to_hex', 'as_json', 'to_owned', 'as_secs', 'as_u16', 'as_u64', 'to_string_lossless', 'from'}
+# documented as normalising / truncating: two different values can map to the same stored value
+LOSSY_ACCESSORS = {'as_str_without_trailing_slash', 'to_lowercase', 'to_uppercase', 'to_ascii_lowercase', 'to_ascii_uppercase', 'trim', 'trim_end', 'trim_start', 'trim_matches',
+                   'trim_end_matches', 'trim_start_matches', 'truncate', 'to_string_lossy', 'from_utf8_lossy', 'split_whitespace', 'normalize', 'domain', 'host', 'host_str', 'path', 'scheme'}
 ACCESSOR_TYPES = {'as_secs': 'u64', 'as_u64': 'u64', 'as_u16': 'u16', 'as_u32': 'u32', 'len': 'usize', 'as_u8': 'u8'}
 
 
